@@ -248,13 +248,31 @@ class OneOf(Shape):
         return self.values[-1]
 
 
+def _bvars(n):
+    return tuple(z3.Int('x!len%d' % i) for i in range(n))
+
+
 class ListOf(Shape):
     def __init__(self, inner):
         self.inner = inner
 
     def make(self, mk, name, idx=None):
         if idx is not None:
-            raise NotImplementedError('indexed list')
+            # a list inside an element of a sequence: length and elements are functions of the outer index
+            from .vals import to_int
+            if getattr(mk, 'uf_args', None) is not None and not isinstance(idx, tuple):
+                raise NotImplementedError('list nested in a parse-result sequence')
+            outer = idx if isinstance(idx, tuple) else (to_int(idx),)
+            lf = z3.Function(mk.fname(name + '.len'), *([IntS] * (len(outer) + 1)))
+            bs = _bvars(len(outer))
+            mk.assume(z3.ForAll(list(bs), lf(*bs) >= 0))
+            inner = self.inner
+            base = mk.fname(name + '[]')
+            cur = mk.current() if hasattr(mk, 'current') else mk
+
+            def elem_n(i, _base=base):
+                return inner.make(_StableNames(cur), _base, outer + (to_int(i),))
+            return SList(elem_n, lf(*outer), name)
         n = mk.const(name + '.len', IntS)
         mk.assume(n >= 0)
         inner = self.inner
@@ -409,7 +427,16 @@ class DictOf(Shape):
         smk = _StableNames(mk.current()) if hasattr(mk, 'current') else mk
         cache = {}
 
+        hasf = z3.Function(base + '.has', IntS, BoolS)
+
+        def ikey(k):
+            from .vals import to_int
+            return hasf(to_int(k)), inner.make(smk, base + '[]', to_int(k))
+
         def key(k):
+            from .vals import is_intlike
+            if is_intlike(k) and idx is None:
+                return ikey(k)       # integer keys: membership and value are functions of the key
             if is_sym(k) or not isinstance(k, (str, int)):
                 from .ctx import Unsupported
                 raise Unsupported('lookup in %s with a non-constant key' % name)
